@@ -24,6 +24,8 @@ class Runtime:
         self.problem = None
         self.last_out = {}        # output name -> physical array of the stub's last real compute
         self.enabled = True
+        self.krylov_fail = 0      # number of times a ScipyKrylov of this Problem reported non-convergence
+        self.krylov_fail_sparsity = 0
 
     def hit(self, comp, method):
         n = self.counts.get((comp, method), 0) + 1
@@ -559,6 +561,20 @@ NL = {
     'newton': lambda s: om.NewtonSolver(solve_subsystems=s.get('solve_subsystems', False)),
     'broyden': lambda s: om.BroydenSolver(),
 }
+class _Krylov(om.ScipyKrylov):
+    """ScipyKrylov that also tells the simulator when it reports non-convergence (with iprint=-1 and
+    err_on_non_converge=False nothing else does)."""
+    _verif_rt = None
+
+    def _convergence_failure(self):
+        if self._verif_rt is not None:
+            if self._system()._problem_meta.get('coloring_randgen') is not None:
+                self._verif_rt.krylov_fail_sparsity += 1      # randomised partials of a sparsity computation
+            else:
+                self._verif_rt.krylov_fail += 1
+        super()._convergence_failure()
+
+
 LN = {
     'direct': lambda s: om.DirectSolver(assemble_jac=False),
     'direct_csc': lambda s: om.DirectSolver(assemble_jac=True),
@@ -566,10 +582,10 @@ LN = {
     'direct_csr': lambda s: om.DirectSolver(assemble_jac=True),
     'lnbgs': lambda s: om.LinearBlockGS(),
     'lnbj': lambda s: om.LinearBlockJac(),
-    'krylov': lambda s: om.ScipyKrylov(),
-    'krylov_csc': lambda s: om.ScipyKrylov(assemble_jac=True),
-    'krylov_csr': lambda s: om.ScipyKrylov(assemble_jac=True),
-    'krylov_dense': lambda s: om.ScipyKrylov(assemble_jac=True),
+    'krylov': lambda s: _Krylov(),
+    'krylov_csc': lambda s: _Krylov(assemble_jac=True),
+    'krylov_csr': lambda s: _Krylov(assemble_jac=True),
+    'krylov_dense': lambda s: _Krylov(assemble_jac=True),
     'lnbgs_csc': lambda s: om.LinearBlockGS(assemble_jac=True),
     'lnbgs_csr': lambda s: om.LinearBlockGS(assemble_jac=True),
     'runonce': lambda s: om.LinearRunOnce(),
@@ -639,6 +655,8 @@ def build(world, rt, name='w', tol=None, reorder=False, problem_kwargs=None):
             if s['nl'] in ('newton', 'broyden'):
                 nl.linesearch = None
         grp.linear_solver = ln = LN[s['ln']](s)
+        if isinstance(ln, _Krylov):
+            ln._verif_rt = rt
         if '_' in s['ln']:
             grp.options['assembled_jac_type'] = s['ln'].split('_')[1]
         if s['ln'].split('_')[0] in ('lnbgs', 'lnbj', 'krylov'):
